@@ -941,7 +941,7 @@ func (ex *Explorer) runPath(w *worker, prefix []Decision) {
 		msg := truncate(end.reason, 500)
 		found := false
 		for _, m := range res.Inconclusive {
-			if strings.HasPrefix(m, truncate(msg, 120)) {
+			if strings.HasPrefix(m, msg[:min(len(msg), 100)]) {
 				found = true
 			}
 		}
